@@ -326,8 +326,17 @@ class Parser:
         debug = self.debug
 
         accepted_head = None
+        # The start head spans nothing at the start position so that empty
+        # reductions done before the first shift have proper positions.
         start_head = LRStackNode(
-            file_name, input_str, self.table.states[0], 0, position, extra
+            file_name,
+            input_str,
+            self.table.states[0],
+            0,
+            position,
+            extra,
+            start_position=position,
+            end_position=position,
         )
         self._init_dynamic_disambiguation(start_head)
         self.parse_stack = parse_stack = [start_head]
